@@ -28,3 +28,70 @@ Theorem c11_overflow_only_rescues : forall W pad cs, 1 <= W ->
   (run W pad false cs = TooNarrow /\ exists ls, run W pad true cs = Ok ls).
 Proof. exact OptionRel.c11_overflow_only_rescues. Qed.
 Print Assumptions c11_overflow_only_rescues.
+
+(* ---------- whole renderer (Proofs/SimRel.v): allowing overflow never changes a rendering that succeeds, and with it rendering
+   is never too narrow ---------- *)
+From H2T Require Import Sub Css Dom Render Api Proofs.WrapInv Proofs.RenderWidth Proofs.OptionRel Proofs.Compose Proofs.RenderTotal Proofs.SimRel.
+Theorem c11_overflow_noop_render :
+  forall (d : deco) (mw : N) (o1 : ropts) (width : N) (tree : rnode) (s1 : subr),
+       render_tree d mw o1 width tree = Ok s1 ->
+       render_tree d mw (with_overflow o1) width tree = Ok (ovs s1) /\
+       (forall ls : list rline, sub_into_lines s1 = Ok ls -> sub_into_lines (ovs s1) = Ok ls).
+Proof. exact SimRel.c11_overflow_noop_render. Qed.
+Print Assumptions c11_overflow_noop_render.
+
+Theorem c11_lines_from_read :
+  forall (inl : list (text * text) -> res (list styledecl)) (dr : list node -> res (list ruleset))
+         (c : config) (doc : list node) (w : N) (r : list tline),
+       lines_from_read inl dr c doc w = Ok r -> lines_from_read inl dr (set_overflow c) doc w = Ok r.
+Proof. exact SimRel.c11_lines_from_read. Qed.
+Print Assumptions c11_lines_from_read.
+
+Theorem c11_string_from_read :
+  forall (inl : list (text * text) -> res (list styledecl)) (dr : list node -> res (list ruleset))
+         (c : config) (doc : list node) (w : N) (r : text),
+       string_from_read inl dr c doc w = Ok r -> string_from_read inl dr (set_overflow c) doc w = Ok r.
+Proof. exact SimRel.c11_string_from_read. Qed.
+Print Assumptions c11_string_from_read.
+
+Theorem c11_overflow_never_too_narrow_render :
+  forall (d : deco) (mw : N) (o : ropts) (width : N) (tree : rnode),
+       o_allow_overflow o = true ->
+       rn (fun s : subr => sub_into_lines s <> TooNarrow /\ sub_into_string s <> TooNarrow)
+         (render_tree d mw o width tree).
+Proof. exact SimRel.c11_overflow_never_too_narrow_render. Qed.
+Print Assumptions c11_overflow_never_too_narrow_render.
+
+Theorem c11_routes_never_too_narrow :
+  forall (inl : list (text * text) -> res (list styledecl)) (dr : list node -> res (list ruleset))
+         (c : config) (doc : list node) (w : N) (tree : rnode),
+       c_overflow c = true ->
+       w <> 0 ->
+       to_render_tree inl dr c doc = Ok tree ->
+       lines_from_read inl dr c doc w <> TooNarrow /\ string_from_read inl dr c doc w <> TooNarrow.
+Proof. exact SimRel.c11_routes_never_too_narrow. Qed.
+Print Assumptions c11_routes_never_too_narrow.
+
+Theorem c11_overflow_always_ok_render :
+  forall (d : deco) (mw : N) (o : ropts) (width : N) (tree : rnode),
+       o_allow_overflow o = true ->
+       width < usize_max ->
+       tree_wf d mw tree = true ->
+       exists (s : subr) (ls : list rline) (str : text),
+         render_tree d mw o width tree = Ok s /\ sub_into_lines s = Ok ls /\ sub_into_string s = Ok str.
+Proof. exact SimRel.c11_overflow_always_ok. Qed.
+Print Assumptions c11_overflow_always_ok_render.
+
+Theorem c11_routes_always_ok :
+  forall (inl : list (text * text) -> res (list styledecl)) (dr : list node -> res (list ruleset))
+         (c : config) (doc : list node) (w : N) (tree : rnode),
+       c_overflow c = true ->
+       1 <= w ->
+       w < usize_max ->
+       to_render_tree inl dr c doc = Ok tree ->
+       tree_wf (c_deco c) (c_min_wrap c) tree = true ->
+       (exists r : list tline, lines_from_read inl dr c doc w = Ok r) /\
+       (exists r : text, string_from_read inl dr c doc w = Ok r).
+Proof. exact SimRel.c11_routes_always_ok. Qed.
+Print Assumptions c11_routes_always_ok.
+
